@@ -17,7 +17,7 @@ def currentDeltas (t : Trace) : List Int :=
 def scaleState (deltas : List Int) : Int × Int :=
   deltas.foldl (fun (s : Int × Int) d =>
     if s.2 = 0 then s else
-    let next := (s.1 + d + 256) % 256
+    let next := (s.1 + d + 256).tmod 256      -- Go's % truncates toward zero (negative for hostile deltas)
     if next = 0 then (s.1, 0) else (next, next)) (8, 8)
 
 /-- does the next coefficient read a delta? -/
@@ -74,11 +74,12 @@ def sps (signedOffsets : Bool) : List Syn :=
   .fld "nal_header" 8, .fld "profile_idc" 8, .fld "constraint_flags" 8, .fld "level_idc" 8, .ue "seq_parameter_set_id",
   .cond (fun t => highProfiles.contains (t.nat "profile_idc")) [
     .ue "chroma_format_idc",
-    .cond (fun t => t.get "chroma_format_idc" = 3) [.flag "separate_colour_plane_flag"],
+    -- `sps.ChromaFormatIDC = byte(reader.ReadExpGolomb())`: the parser keeps the low 8 bits
+    .cond (fun t => t.nat "chroma_format_idc" % 256 = 3) [.flag "separate_colour_plane_flag"],
     .ue "bit_depth_luma_minus8", .ue "bit_depth_chroma_minus8", .flag "qpprime_y_zero_transform_bypass_flag",
     .flag "seq_scaling_matrix_present_flag",
     .cond (fun t => t.get "seq_scaling_matrix_present_flag" = 1) [
-      .rep 12 (fun t => if t.get "chroma_format_idc" = 3 then 12 else 8) [
+      .rep 12 (fun t => if t.nat "chroma_format_idc" % 256 = 3 then 12 else 8) [
         .flag "scaling_list_present",
         .cond (fun t => t.get "scaling_list_present" = 1) [
           .rep 64 listSize [.cond needDelta [.se "delta_scale"]]]]]],
@@ -100,13 +101,16 @@ def sps (signedOffsets : Bool) : List Syn :=
 
 /-- chroma_format_idc as the parser infers it: 1 unless coded (profile 138 starts from 0 but always codes it) -/
 def chromaFormat (t : Trace) : Nat :=
-  if highProfiles.contains (t.nat "profile_idc") then t.nat "chroma_format_idc" else 1
+  if highProfiles.contains (t.nat "profile_idc") then t.nat "chroma_format_idc" % 256 else 1
 
-/-- width / height as `ParseSPSNALUnit` computes them (`none` = "non-valid chroma_format_idc" error) -/
+/-- width / height as `ParseSPSNALUnit` computes them: Go `uint` arithmetic, i.e. modulo 2^64 with wrapping
+    subtraction (`none` = "non-valid chroma_format_idc" error) -/
 def dims (t : Trace) : Option (Nat × Nat) :=
-  let w := (t.nat "pic_width_in_mbs_minus1" + 1) * 16
+  let W := Mp4ff.Bits.W64
+  let w := ((t.nat "pic_width_in_mbs_minus1" + 1) % W * 16) % W
   let fmo := t.nat "frame_mbs_only_flag"
-  let h := (t.nat "pic_height_in_map_units_minus1" + 1) * 16 * (if fmo = 1 then 1 else 2)
+  let h0 := ((t.nat "pic_height_in_map_units_minus1" + 1) % W * 16) % W
+  let h := if fmo = 1 then h0 else (h0 * 2) % W
   if t.get "frame_cropping_flag" = 1 then
     let cu : Option (Nat × Nat) := match chromaFormat t with
       | 0 => some (1, 2 - fmo)
@@ -115,9 +119,21 @@ def dims (t : Trace) : Option (Nat × Nat) :=
       | 3 => some (1, 2 - fmo)
       | _ => none
     cu.map fun (cx, cy) =>
-      (w - (t.nat "frame_crop_left_offset" + t.nat "frame_crop_right_offset") * cx,
-       h - (t.nat "frame_crop_top_offset" + t.nat "frame_crop_bottom_offset") * cy)
+      let cw := ((t.nat "frame_crop_left_offset" + t.nat "frame_crop_right_offset") % W * cx) % W
+      let ch := ((t.nat "frame_crop_top_offset" + t.nat "frame_crop_bottom_offset") % W * cy) % W
+      ((w + W - cw) % W, (h + W - ch) % W)
   else some (w, h)
+
+/-- the cropping rectangle lies inside the coded picture and the coded size is below 2^64 (what the standard
+    requires of a valid SPS: 7.4.2.1.1) -/
+def CropFits (t : Trace) : Prop :=
+  let fmo := t.nat "frame_mbs_only_flag"
+  let w := (t.nat "pic_width_in_mbs_minus1" + 1) * 16
+  let h := (t.nat "pic_height_in_map_units_minus1" + 1) * 16 * (2 - fmo)
+  h < Mp4ff.Bits.W64 ∧ w < Mp4ff.Bits.W64 ∧
+  (t.get "frame_cropping_flag" = 1 →
+    2 * (t.nat "frame_crop_left_offset" + t.nat "frame_crop_right_offset") ≤ w ∧
+    4 * (t.nat "frame_crop_top_offset" + t.nat "frame_crop_bottom_offset") ≤ h)
 
 /-- the standard's derivation (7.4.2.1.1): SubWidthC/SubHeightC by chroma_format_idc, ChromaArrayType,
     CropUnitX/Y, PicWidthInSamples, FrameHeightInMbs -/
@@ -146,7 +162,7 @@ def scalingList (size : Nat) (deltas : List Int) : List Int :=
       if next ≠ 0 then
         match ds with
         | d :: ds' =>
-          let next' := (last + d + 256) % 256
+          let next' := (last + d + 256).tmod 256
           let v := if next' = 0 then last else next'
           v :: go n ds' v next'
         | [] => last :: go n [] last next      -- cannot happen for a parsed trace
